@@ -1167,7 +1167,7 @@ def rand_rich_bm(rng):
     for _ in range(rng.choice([1, 2, 3, 4])):
         s = rng.choice(structs)
         if surf[s]:
-            k = rng.randrange(1, nvert[s] + 1)
+            k = rng.randrange(1, min(nvert[s], 9) + 1)      # few vertices even on a 32492-vertex surface
             parts.append({'surf': True, 's': s, 'nvertex': nvert[s], 'vertices': sorted(rng.sample(range(nvert[s]), k))})
         else:
             allv = [[i, j, k] for i in range(shape[0]) for j in range(shape[1]) for k in range(shape[2])]
